@@ -155,6 +155,29 @@ def headerLoop : Nat → Bytes → Int → Int → Bool → Option (Bytes × Int
       if line.contains 58 then headerLoop fuel next (endIndex - consumed) (eti - consumed) true
       else some (rest, endIndex, eti, has)
 
+/-- the part of one pass of `Decode` after the header loop: the END line must repeat the type and end in five
+dashes with only blanks after them, the body must be base64. `none` = `continue`. -/
+def finishBlock (ty rest : Bytes) (endIndex eti : Int) (has : Bool) : Option DecodeResult :=
+  if has ∧ endIndex < 0 then none
+  else if eti < 0 ∨ eti > rest.length then some .panic
+  else
+    let endTrailer := rest.drop eti.toNat
+    let etl := ty.length + 5
+    if endTrailer.length < etl then none
+    else
+      let restOfEndLine := endTrailer.drop etl
+      let endTrailer := endTrailer.take etl
+      if !(ty.isPrefixOf endTrailer && dashes5.isSuffixOf endTrailer) then none
+      else if !(getLine restOfEndLine).1.isEmpty then none
+      else
+        let bytes : Option Bytes :=
+          if endIndex > 0 then b64Dec (removeSpTab (rest.take endIndex.toNat)) else some []
+        match bytes with
+        | none => none
+        | some b =>
+          if endIndex + 9 < 0 ∨ endIndex + 9 > rest.length then some .panic
+          else some (.block ⟨ty, has, b⟩ (getLine (rest.drop (endIndex + 9).toNat)).2.1)
+
 /-- the retry loop of `Decode` (`fuel` bounds the number of `continue`s; each one advances past an END marker). -/
 def decodeLoop : Nat → Bytes → Bytes → Int → DecodeResult
   | 0, data, _, _ => .noBlock data
@@ -183,25 +206,9 @@ def decodeLoop : Nat → Bytes → Bytes → Int → DecodeResult
               match headerLoop (rest.length + 1) rest endIndex eti false with
               | none => .noBlock data
               | some (rest, endIndex, eti, has) =>
-                if has ∧ endIndex < 0 then decodeLoop fuel data rest eti
-                else if eti < 0 ∨ eti > rest.length then .panic
-                else
-                  let endTrailer := rest.drop eti.toNat
-                  let etl := ty.length + 5
-                  if endTrailer.length < etl then decodeLoop fuel data rest eti
-                  else
-                    let restOfEndLine := endTrailer.drop etl
-                    let endTrailer := endTrailer.take etl
-                    if !(ty.isPrefixOf endTrailer && dashes5.isSuffixOf endTrailer) then decodeLoop fuel data rest eti
-                    else if !(getLine restOfEndLine).1.isEmpty then decodeLoop fuel data rest eti
-                    else
-                      let bytes : Option Bytes :=
-                        if endIndex > 0 then b64Dec (removeSpTab (rest.take endIndex.toNat)) else some []
-                      match bytes with
-                      | none => decodeLoop fuel data rest eti
-                      | some b =>
-                        if endIndex + 9 < 0 ∨ endIndex + 9 > rest.length then .panic
-                        else .block ⟨ty, has, b⟩ (getLine (rest.drop (endIndex + 9).toNat)).2.1
+                match finishBlock ty rest endIndex eti has with
+                | none => decodeLoop fuel data rest eti
+                | some r => r
 
 /-- `pem.Decode`. -/
 def pemDecode (data : Bytes) : DecodeResult := decodeLoop (data.length + 1) data data 0
@@ -210,6 +217,27 @@ def pemDecode (data : Bytes) : DecodeResult := decodeLoop (data.length + 1) data
 
 def bannerV1 : Bytes := asBytes Gen.cert_CertificateBanner
 def bannerV2 : Bytes := asBytes Gen.cert_CertificateV2Banner
+
+/-- what a nebula PEM block holds (cert/pem.go's three banner groups). -/
+inductive BlockKind where
+  | certV1 | certV2
+  | x25519Private | x25519Public | p256Private | p256Public
+  | ecdsaP256EncryptedPrivate | ecdsaP256Private | ecdsaP256Public
+  | ed25519EncryptedPrivate | ed25519Private | ed25519Public
+  deriving DecidableEq, Repr
+
+/-- the banner table of cert/pem.go: every banner constant (regenerated) and the kind of block it announces. -/
+def bannerTable : List (String × BlockKind) :=
+  [(Gen.cert_CertificateBanner, .certV1), (Gen.cert_CertificateV2Banner, .certV2),
+   (Gen.cert_X25519PrivateKeyBanner, .x25519Private), (Gen.cert_X25519PublicKeyBanner, .x25519Public),
+   (Gen.cert_P256PrivateKeyBanner, .p256Private), (Gen.cert_P256PublicKeyBanner, .p256Public),
+   (Gen.cert_EncryptedECDSAP256PrivateKeyBanner, .ecdsaP256EncryptedPrivate),
+   (Gen.cert_ECDSAP256PrivateKeyBanner, .ecdsaP256Private), (Gen.cert_ECDSAP256PublicKeyBanner, .ecdsaP256Public),
+   (Gen.cert_EncryptedEd25519PrivateKeyBanner, .ed25519EncryptedPrivate),
+   (Gen.cert_Ed25519PrivateKeyBanner, .ed25519Private), (Gen.cert_Ed25519PublicKeyBanner, .ed25519Public)]
+
+/-- the kind a block type announces (`none`: not a nebula banner). -/
+def kindOf (ty : Bytes) : Option BlockKind := (bannerTable.find? (fun e => asBytes e.1 == ty)).map (·.2)
 
 inductive PemErr where
   | invalidPEMBlock | banner | v1 (e : V1.DecErr) | v2 (e : V2.DecErr) | panic
